@@ -6,20 +6,22 @@ mod manual_c19;
 mod manual_c11;
 mod manual_c16;
 mod manual_c20;
+mod manual_c15;
+mod manual_c17;
 mod wire;
 use std::io::{BufRead, Write};
 use std::panic::{catch_unwind, AssertUnwindSafe};
 use wire::Args;
 
 /// contributed manual op tables: add `mod manual_<tag>;` above and `manual_<tag>::dispatch` here
-pub static CONTRIB: &[fn(&str, &str, &mut Args) -> Option<String>] = &[manual_c13b::dispatch, manual_c19::dispatch, manual_c11::dispatch, manual_c16::dispatch, manual_c20::dispatch];
+pub static CONTRIB: &[fn(&str, &str, &mut Args) -> Option<String>] = &[manual_c13b::dispatch, manual_c19::dispatch, manual_c11::dispatch, manual_c16::dispatch, manual_c20::dispatch, manual_c15::dispatch, manual_c17::dispatch];
 
 fn main() {
     std::panic::set_hook(Box::new(|_| {}));
     let stdin = std::io::stdin();
     let stdout = std::io::stdout();
     let mut out = std::io::BufWriter::new(stdout.lock());
-    let hang_ms: u64 = std::env::var("RVH_HANG_MS").ok().and_then(|v| v.parse().ok()).unwrap_or(3000);
+    let hang_ms: u64 = std::env::var("RVH_HANG_MS").ok().and_then(|v| v.parse().ok()).unwrap_or(10000);
     for line in stdin.lock().lines() {
         let line = line.unwrap();
         let mut toks: Vec<String> = line.split_whitespace().map(|s| s.to_string()).collect();
